@@ -154,6 +154,8 @@ def check_pastify_driver(ix, rep, pcls, hcls):
 
 
 def check(ix, rep):
+    from sa.rules import round11 as _r11
+    rep.floor('sites that clear the ast-installed flag', _r11.check_set_ast_flag_writers(ix, rep), 1)
     hcls = ix.find_class('rtamt.pastifier.stl.horizon', 'StlHorizon')
     pcls = ix.find_class('rtamt.pastifier.stl.pastifier', 'StlPastifier')
     n1 = exh_visitor(ix, rep, hcls, 'StlHorizon')
